@@ -17,7 +17,10 @@ RULE = ("Generator of C07 with a drawn sampling interval (fixed values 0.3/0.1/0
         "t_k exactly; the run ends with the end-of-run event at Time.from_float(end) as last commit; the number of "
         "samples is the number of nominal times before the end (a nominal time equal to the end may go either way). "
         "Non-trivial: a run that reached its end with >=3 samples and >=1 interaction event; distinct by (config, "
-        "edits, seed, budget). One history in six draws an interval in [0.0015, 0.004] (500-8000 samples per run). "
+        "edits, seed, budget). One history in four has a second sampling tagger copied from the shipped one (own interval, "
+        "own output handler: each handler keeps its own times and its own output); one in three (more for mode-switching "
+        "configurations) connects the end-of-run handler to an output handler through its documented option, the state "
+        "written there must be fully time-sliced as well. One history in six draws an interval in [0.0015, 0.004] (500-8000 samples per run). "
         "Sub-check periodic_handlers: the sampling and dumping handlers alone are asked for 3-300 or 1000-4000 "
         "consecutive candidate times (interval from fixed values and log-uniform [1e-4,1e3], first sample at zero or "
         "not); oracle k*interval in Fractions with (k+1) roundings of size ulp(1+interval) allowed, strictly "
